@@ -141,9 +141,9 @@ func init() {
 			for w := int64(0); w < 3; w++ {
 				r = append(r, &Instance{Pkg: fsm, Func: "VH_C01_reads", Args: []int64{w, n, 2, v}, Unwind: 32})
 			}
-			for k := int64(0); k <= 6; k++ {
+			for k := int64(0); k <= 7; k++ {
 				nk := n
-				if k == 3 || k == 5 {
+				if k == 3 || k == 5 || k == 7 {
 					nk = n - 1 // two- and three-key commands: one pair less in the pre-state
 				}
 				r = append(r, &Instance{Pkg: fsm, Func: "VH_C01_step", Args: []int64{k, nk, 2, v, 0}, Unwind: 32})
@@ -174,15 +174,16 @@ func init() {
 			return []*Instance{
 				{Pkg: fsm, Func: "VH_C09_unary", Args: []int64{n, 2, v}, Unwind: 32},
 				{Pkg: fsm, Func: "VH_C09_stream", Args: []int64{n, 2, v}, Unwind: 32},
+				{Pkg: fsm, Func: "VH_C09_chunks", Unwind: 32},
 				{Pkg: fsm, Func: "VH_C09_vacuity", Args: []int64{2, 2}, Expect: "violated"},
 			}
 		},
-		Covers: map[string][]string{"VH_C09_unary": {"end", "exactly-one-beyond-limit", "limit-equals-matches"}, "VH_C09_stream": {"end"}},
+		Covers: map[string][]string{"VH_C09_unary": {"end", "exactly-one-beyond-limit", "limit-equals-matches"}, "VH_C09_stream": {"end"}, "VH_C09_chunks": {"end", "cut"}},
 		Bounds: map[string]string{
-			"quick":    "table of 0..2 pairs (keys 1..2 bytes, 1-byte values), arbitrary bounds (0..2 bytes, wildcard, inverted), limit 0..3 (less, equal, equal+1, greater than the matches), all flag variants; unary and streamed reads; unwind 32",
+			"quick":    "table of 0..2 pairs (keys 1..2 bytes, 1-byte values), arbitrary bounds (0..2 bytes, wildcard, inverted), limit 0..3 (less, equal, equal+1, greater than the matches), all flag variants; unary and streamed reads; size cuts: 3 pairs with values of 1 byte / 1.5 MiB / 2 MiB in every combination, streamed with a delete and a put applied between the first two messages; unwind 32",
 			"thorough": "0..3 pairs, values 0..1 bytes, limit 0..4",
 		},
-		Outside: "size-based message cuts (values near 2 MiB): need symbolic-length values; gRPC transport; more pairs than the bound",
+		Outside: "value sizes other than the three classes of the size-cut harness (1 byte, 1.5 MiB, 2 MiB: sizes are concrete there); gRPC transport; more pairs than the bound",
 		Assumptions: []string{"Pebble model M1", "the streamed read is consumed completely by one consumer"},
 	}
 	props["C03"] = &Property{
@@ -240,6 +241,8 @@ func init() {
 				{Pkg: fsm, Func: "VH_C02_txn", Args: []int64{0, 2, 0, 1}, Unwind: 32},
 				{Pkg: fsm, Func: "VH_C02_txn", Args: []int64{2, 0, 1, 1}, Unwind: 32},
 				{Pkg: fsm, Func: "VH_C02_readonly", Args: []int64{1, 2, 1}, Unwind: 32},
+				{Pkg: fsm, Func: "VH_C02_inbatch", Args: []int64{0, 1, 1}, Unwind: 32},
+				{Pkg: fsm, Func: "VH_C02_inbatch", Args: []int64{1, 1, 1}, Unwind: 32},
 				{Pkg: fsm, Func: "VH_C02_vacuity", Expect: "violated"},
 			}
 			if tier == "thorough" {
@@ -250,9 +253,9 @@ func init() {
 			}
 			return r
 		},
-		Covers: map[string][]string{"VH_C02_txn": {"end"}, "VH_C02_readonly": {"end"}},
+		Covers: map[string][]string{"VH_C02_txn": {"end"}, "VH_C02_readonly": {"end"}, "VH_C02_inbatch": {"end", "success-branch", "failure-branch"}},
 		Bounds: map[string]string{
-			"quick":    "transactions with (1 predicate, 1 success op), (0 predicates, 2 success ops), (2 predicates, 0 success ops), each with a one-put failure branch; predicates: any result enum, with/without value target, single key or range; ops: range / put / delete(range) with all flags; pre-state 0..1 pairs (0 for the two-op shape), 1-byte keys/values; read-only transaction (1 predicate) on 0..2 pairs",
+			"quick":    "transactions with (1 predicate, 1 success op), (0 predicates, 2 success ops), (2 predicates, 0 success ops), each with a one-put failure branch; predicates: any result enum, with/without value target, single key or range; ops: range / put / delete(range) with all flags; pre-state 0..1 pairs (0 for the two-op shape), 1-byte keys/values; read-only transaction (1 predicate) on 0..2 pairs; a transaction (1 predicate, one-put branches) after a plain put / delete / wildcard range delete in the same apply call and in the same command sequence, pre-state 0..1 pairs",
 			"thorough": "adds two ops on a 0..1-pair state, two predicates on 0..2 pairs, 2-byte keys",
 		},
 		Outside: "longer predicate / operation lists; operations with an empty oneof (C16); crash atomicity (C04: one Pebble batch, one commit)",
@@ -294,9 +297,9 @@ func init() {
 				{Pkg: tb, Func: "VH_C15_vacuity", Expect: "violated"},
 			}
 		},
-		Covers: map[string][]string{"VH_C15_lease": {"end", "granted", "held", "third-node"}, "VH_C15_return": {"end", "foreign"}},
+		Covers: map[string][]string{"VH_C15_lease": {"end", "granted", "held", "returned"}, "VH_C15_return": {"end", "foreign"}},
 		Bounds: map[string]string{
-			"quick":    "one lease call of node 1 from an arbitrary pre-existing record (absent / owner 1,2,3 / arbitrary expiry instant and version), with one arbitrary call (lease, renew, return, none) of node 2 between node 1's store read and store write and one more after; lease durations 10 s and -1 s; all clock readings symbolic, monotone, non-decreasing",
+			"quick":    "one call of node 1 (lease/renew or return) from an arbitrary pre-existing record (absent / owner 1,2,3 / arbitrary expiry instant and version), with one arbitrary call (lease, renew, return, none) of node 2 between node 1's store read and store write, then one arbitrary call of node 3 and one more of node 2; lease durations 10 s and -1 s; all clock readings symbolic, monotone, non-decreasing",
 			"thorough": "same (the step is inductive over the record; more calls add nothing new)",
 		},
 		Outside: "clock skew between nodes (one global monotone clock is assumed); the worker's cached 'leased' flag lagging a renewal behind; more than one interfering call inside a single read-write window",
